@@ -17,13 +17,26 @@ def _sig(reply):
     return (oc, "")
 
 
+def related_variants(src):
+    """Programs that define the same names differently: Int and Str swapped in class headers and field / method
+    declarations, a type fault appended at the end (rejected after everything else was checked), a syntax fault."""
+    def swap(line):
+        return line.replace("Int", "\0").replace("Str", "Int").replace("\0", "Str")
+    lines = src.split("\n")
+    swapped = "\n".join(swap(l) if l.lstrip().startswith(("class ", "def ", "type ")) else l for l in lines)
+    only_classes = "\n".join(swap(l) if l.startswith("class ") else l for l in lines)
+    return [swapped, src.rstrip("\n") + "\ndef zz_fault: Int := \"s\"\n", only_classes, src.rstrip("\n") + "\ndef := (\n"]
+
+
 class C12:
     id = "C12"
     cases = {"quick": 18, "thorough": 600}
     rule = ("inputs: CoreGen programs (classes with several members and parents, unions through if/match, handle), typed "
             "expression programs, the repository samples and seeds (fixed list) and 2-file projects made of them. Each input "
             "is run K times in one process, on T concurrent threads, in P fresh processes, and once after a history of other "
-            "inputs in the same process (quick K=8, T=4x2, P=3: >=20 independent hash seedings per input). Oracle: all runs "
+            "inputs in the same process, and once at the end of a history of related programs run on the same thread (the same classes "
+            "and functions with Int and Str swapped, the input with a type fault appended, with a syntax fault) (quick K=8, T=4x2, "
+            "P=3: >=20 independent hash seedings per input). Oracle: all runs "
             "give the same verdict and, on success, byte-identical Python (diagnostic text is not compared). Non-trivial: "
             "accepted input with a class, a match, an if-expression or a handle; distinct by SHA-1 of the input.")
     assumptions = [
@@ -36,7 +49,7 @@ class C12:
 
     def strategy(self, tier, switches):
         self.tier = tier
-        return inputs.sources(kinds=("core", "core", "core", "expr"))
+        return inputs.sources(kinds=("core", "core", "expr", "wide", "wide", "api"))
 
     def fixed_cases(self, tier, switches):
         self.tier = tier
@@ -97,6 +110,18 @@ class C12:
             if add(x, "fresh process" if i else "after history"):
                 stats.inc("crash_left_to_C03")
                 return None
+        # history on ONE thread of one process: related programs first (the same classes and functions with other types, a
+        # variant that the checker rejects at its last line, the input with a syntax error), then the input itself
+        hist = [dict(req, files=[[v, f[1]] for f in files[:1]] + files[1:]) for v in related_variants(files[0][0])]
+        r = worker.call({"op": "transpile_seq", "seq": hist + [req]})
+        if "results" not in r:
+            stats.inc("crash_left_to_C03")
+            return None
+        stats.inc("history_rejected_runs", sum(1 for x in r["results"][:-1] if outcome(x) == "err"))
+        stats.inc("history_accepted_runs", sum(1 for x in r["results"][:-1] if outcome(x) == "ok"))
+        if add(r["results"][-1], "after a history of related programs on the same thread"):
+            stats.inc("crash_left_to_C03")
+            return None
         runs = sum(len(v) for v in sigs.values())
         stats.inc("runs", runs)
         verdicts = set(s[0] for s in sigs)
